@@ -86,7 +86,7 @@ fn signed_values(n: usize, ctx: &Ctx) -> Vec<Limbs> {
     v.push((0..n).map(|i| if i % 2 == 0 { g1 } else { g2 }.rotate_left(i as u32)).collect());
     v.push((0..n).map(|i| if i % 2 == 0 { g2 } else { g1 }.rotate_left(i as u32) | if i == n - 1 { TOP } else { 0 }).collect());
     let v = dedup(v);
-    thin(v, if th { 1600 } else { 520 })
+    thin(v, if th { 2400 } else { 520 })
 }
 
 type WidenFn<'a, const N: usize, const M: usize> = Option<&'a (dyn Fn(&Int<N>, &Int<M>, &Uint<M>) -> Vec<Vec<u64>> + Sync)>;
@@ -486,6 +486,7 @@ macro_rules! sqw {
 
 fn main() {
     let ctx = Ctx::from_args(P, "exploration");
+    ctx.section_cap.store(6_000_000, std::sync::atomic::Ordering::Relaxed);
     ctx.set_rule("E1: complete pair products of the signed alphabet {MIN,MIN+1,-1,0,1,MAX,MAX-1,+-2^(BITS/2),+-2^j,+-2^j-1 for every j} u FULL(n<=2,L9) u RUNS(n,L5,2-3) reinterpreted as two's complement, \
         Int<1,2,3,4,8,16> and mixed widths for multiplication/resizing; every form; oracle: BigInt. Non-trivial: both operands non-zero (unary: negative input).");
     ctx.assume("limb values outside the stated alphabets are not explored; oracle = num-bigint BigInt");
